@@ -1,15 +1,37 @@
 import HailVerif.Generated.AttemptsTrigger
+import HailVerif.Model.AttemptBilling
 import HailVerif.Model.DriverUtil
-open HailVerif HailVerif.DriverUtil HailVerif.Generated.AttemptsTrigger
+open HailVerif HailVerif.DriverUtil HailVerif.Generated.AttemptsTrigger HailVerif.AttemptBilling
 
 def optI (s : String) : Option (Option Int) := if s == "N" then some none else s.toInt?.map some
 def optS (s : String) : Option String := if s == "N" then none else some s
 def showI : Option Int → String | none => "N" | some x => toString x
 def showS : Option String → String | none => "N" | some x => x
 
-/-- `upd os oro oe ors ns nro ne nrs` → accepted row `s ro e reason` -/
+def showUsage (rs : List Res) : String := joinWith "," (rs.map fun r => toString r.usage)
+
+/-- `upd os oro oe ors ns nro ne nrs` → accepted row `s ro e reason`
+`bill os oro oe ors ns nro ne nrs q…` → `ins=u,… upd=u,…`: resources of the given quantities are registered while the stored row is
+   `old` (attempt_resources_after_insert), then the report `new` arrives (before + after update triggers); usage per resource
+`delta os oro as aro q…` → amount attempts_after_update adds per resource when the stored row goes from (os, oro) to the accepted (as, aro)
+`ins s ro q…` → amount attempt_resources_after_insert bills per resource for an attempt whose stored times are (s, ro) -/
 def handle (line : String) : String :=
   match words line with
+  | "bill" :: a :: b :: c :: d :: e :: f :: g :: h :: qs =>
+    match optI a, optI b, optI c, optI e, optI f, optI g, qs.mapM String.toInt? with
+    | some a, some b, some c, some e, some f, some g, some qs =>
+      let a0 := run ⟨⟨a, b, c, optS d⟩, []⟩ (qs.map .addResource)
+      let a1 := a0.step (.report ⟨e, f, g, optS h⟩)
+      s!"ins={showUsage a0.res} upd={showUsage a1.res}"
+    | _, _, _, _, _, _, _ => "bad-op"
+  | "delta" :: a :: b :: c :: d :: qs =>
+    match optI a, optI b, optI c, optI d, qs.mapM String.toInt? with
+    | some a, some b, some c, some d, some qs => joinWith "," (qs.map fun q => toString (added q (msecDiffRollup a b c d)))
+    | _, _, _, _, _ => "bad-op"
+  | "ins" :: a :: b :: qs =>
+    match optI a, optI b, qs.mapM String.toInt? with
+    | some a, some b, some qs => joinWith "," (qs.map fun q => toString (added q (billedAtInsert a b)))
+    | _, _, _ => "bad-op"
   | ["upd", a, b, c, d, e, f, g, h] =>
     match optI a, optI b, optI c, optI e, optI f, optI g with
     | some a, some b, some c, some e, some f, some g =>
